@@ -108,8 +108,8 @@ def _sample_value(rng, full):
     return rng.randint(-16, 16) * rng.choice([1 / 64, 1 / 4, 1 / 4, 4])
 
 
-def _eval_case(rng, full=False, force_reject=False):
-    V = rng.randint(1, 5)
+def _eval_case(rng, full=False, force_reject=False, force_shape=False, force_scaler=None):  # noqa: C901, PLR0912
+    V = rng.randint(3, 5) if force_shape else rng.randint(1, 5)
     R = rng.randint(1, 3)
     P = rng.randint(1, 4)
     bounds = [_bounds(rng) for _ in range(V)]
@@ -124,9 +124,14 @@ def _eval_case(rng, full=False, force_reject=False):
         bounds = fixed
     lbs = [b[0] for b in bounds]
     ubs = [b[1] for b in bounds]
-    x = [_inside(rng, lb, ub) for lb, ub in bounds]
-    if full:
-        x = [min(max(v + rng.uniform(0, 1e-3), lb), ub) for v, lb, ub in zip(x, lbs, ubs)]
+
+    def point():
+        x = [_inside(rng, lb, ub) for lb, ub in bounds]
+        if full:
+            x = [min(max(v + rng.uniform(0, 1e-3), lb), ub) for v, lb, ub in zip(x, lbs, ubs)]
+        return x
+
+    x = point()
     bts = [rng.choice([NONE, TRUNC, MIRROR])] if rng.random() < 0.25 else [rng.choice([NONE, TRUNC, MIRROR, MIRROR]) for _ in range(V)]
     finite = [math.isfinite(lb) and math.isfinite(ub) for lb, ub in bounds]
     if rng.random() < 0.2:
@@ -141,6 +146,16 @@ def _eval_case(rng, full=False, force_reject=False):
         ms = [rng.uniform(0.05, 2.0) for _ in range(1 if rng.random() < 0.25 else V)]
     else:
         ms = [rng.randint(1, 16) / 8 for _ in range(1 if rng.random() < 0.25 else V)]
+        if rng.random() < 0.12:      # a zero or negative magnitude is a valid configuration: same formula
+            ms[rng.randrange(len(ms))] = rng.choice([0.0, -0.5, -1.25])
+    if force_shape:                  # an array that is neither of size 1 nor of size V: rejected
+        which = rng.choice(["ms", "pts", "bts"])
+        if which == "ms":
+            ms = [0.5] * 2
+        elif which == "pts":
+            pts = [ABSOLUTE] * 2
+        else:
+            bts = [TRUNC] * 2
     ns = rng.choice([1, 1, 2, 3])
     if ns == 1 and rng.random() < 0.6:
         gs = None
@@ -154,13 +169,30 @@ def _eval_case(rng, full=False, force_reject=False):
         if not any(mask):
             mask[rng.randrange(V)] = True
     scripts = [[[[_sample_value(rng, full) for _ in range(V)] for _ in range(P)] for _ in range(R)] for _ in range(ns)]
+    # a VariableScaler (dyadic stream only: power-of-two scales and dyadic offsets keep every float operation exact)
+    scaler = None
+    use_scaler = (rng.random() < 0.3) if force_scaler is None else force_scaler
+    if use_scaler and not full:
+        scaler = {"scales": [rng.choice([0.25, 0.5, 2.0, 4.0]) for _ in range(V)],
+                  "offsets": [rng.randint(-8, 8) / 4 for _ in range(V)]}
+    # the request sequence on ONE evaluator object: 1-3 points; mode 0 = functions+gradient, 1 = functions then
+    # gradient (cached function values), 2 = gradient only (also at a point whose cached values are stale)
+    calls = [{"x": x if rng.random() < 0.5 else point(), "mode": rng.choice([0, 0, 1, 1, 2])}]
+    for _ in range(rng.choice([0, 0, 1, 2])):
+        if rng.random() < 0.3:
+            xx = rng.choice(calls)["x"]      # back at an earlier point
+        else:
+            xx = point()
+        calls.append({"x": xx, "mode": rng.choice([0, 1, 1, 2, 2])})
     return {"kind": "eval", "exact": not full, "x": x, "lbs": lbs, "ubs": ubs, "bts": bts, "pts": pts, "ms": ms,
-            "gs": gs, "mask": mask, "R": R, "P": P, "scripts": scripts, "split": rng.random() < 0.4,
+            "gs": gs, "mask": mask, "R": R, "P": P, "scripts": scripts, "calls": calls, "scaler": scaler,
+            "revalidate": scaler is None and rng.random() < 0.25,
             "weights": [rng.randint(1, 4) / 4 for _ in range(R)]}
 
 
 def gen_cases(tier, rng):
-    n_fun, n_fun_full, n_eval, n_eval_full, n_rej = (400, 40, 300, 40, 25) if tier == "quick" else (12500, 600, 5000, 400, 200)
+    n_fun, n_fun_full, n_eval, n_eval_full, n_rej, n_sc = ((400, 40, 300, 40, 25, 60) if tier == "quick"
+                                                           else (12500, 600, 5000, 400, 200, 1200))
     for _ in range(n_fun):
         yield _fun_case(rng, rng.randint(12, 16))
     for _ in range(n_fun_full):
@@ -171,6 +203,17 @@ def gen_cases(tier, rng):
         yield _eval_case(rng, full=True)
     for _ in range(n_rej):
         yield _eval_case(rng, force_reject=True)
+    for _ in range(n_rej // 2):
+        yield _eval_case(rng, force_shape=True)
+    for _ in range(n_sc):
+        yield _eval_case(rng, force_scaler=True)
+
+
+def _norm(case):
+    """cases written before the request sequence existed (corpus, old replays): one call at the initial values"""
+    if case.get("kind") == "eval" and "calls" not in case:
+        case["calls"] = [{"x": case["x"], "mode": 1 if case.get("split") else 0}]
+    return case
 
 
 # ---------------------------------------------------------------------------------------------------
@@ -237,34 +280,50 @@ def _run_eval(case):
         cfg_dict["variables"]["mask"] = case["mask"]
     if case["gs"] is not None:
         cfg_dict["gradient"]["samplers"] = case["gs"]
-    try:
-        cfg = EnOptConfig.model_validate(cfg_dict)
-    except ValueError as e:      # pydantic ValidationError is a ValueError
-        return {"rejected": True, "message": str(e)[:200].replace("\n", " | ")}
-    pm = PluginManager()
-    pm.add_plugin("sampler", "verif", ScriptedPlugin())
-    x = np.array(case["x"], dtype=np.float64)
+    transforms = None
+    if case.get("scaler") is not None:
+        from ropt.transforms import OptModelTransforms
+        from ropt.transforms.variable_scaler import VariableScaler
+        transforms = OptModelTransforms(variables=VariableScaler(np.array(case["scaler"]["scales"], dtype=np.float64),
+                                                                 np.array(case["scaler"]["offsets"], dtype=np.float64)))
     with warnings.catch_warnings():
         warnings.simplefilter("ignore")
-        ee = EnsembleEvaluator(cfg, None, evaluator, pm)
-        if case["split"]:
-            ee.calculate(x, compute_functions=True, compute_gradients=False)
-            res = ee.calculate(x, compute_functions=False, compute_gradients=True)
-        else:
-            res = ee.calculate(x, compute_functions=True, compute_gradients=True)
-    g = [r for r in res if isinstance(r, GradientResults)]
-    assert len(g) == 1
-    pert = g[0].evaluations.perturbed_variables
+        try:
+            cfg = EnOptConfig.model_validate(cfg_dict, context=transforms)
+            if case.get("revalidate"):      # a round trip through a dict must not change the magnitudes
+                cfg = EnOptConfig.model_validate(cfg.model_dump())
+        except ValueError as e:      # pydantic ValidationError is a ValueError
+            return {"rejected": True, "message": str(e)[:200].replace("\n", " | ")}
+    pm = PluginManager()
+    pm.add_plugin("sampler", "verif", ScriptedPlugin())
+    out_calls = []
+    with warnings.catch_warnings():
+        warnings.simplefilter("ignore")
+        ee = EnsembleEvaluator(cfg, transforms, evaluator, pm)
+        for call in case["calls"]:
+            xu = np.array(call["x"], dtype=np.float64)
+            x = xu if transforms is None else transforms.variables.to_optimizer(xu)
+            del calls[:], rows[:]
+            if call["mode"] == 1:
+                ee.calculate(x, compute_functions=True, compute_gradients=False)
+                res = ee.calculate(x, compute_functions=False, compute_gradients=True)
+            else:
+                res = ee.calculate(x, compute_functions=call["mode"] == 0, compute_gradients=True)
+            g = [r for r in res if isinstance(r, GradientResults)]
+            assert len(g) == 1
+            pert = g[0].evaluations.perturbed_variables
+            out_calls.append({"order": list(calls),
+                              "pert": [[[float(v) for v in row] for row in mat] for mat in pert],
+                              "res_x": [float(v) for v in g[0].evaluations.variables],
+                              "rows": [list(r) for r in rows]})
     return {"rejected": False,
             "mags": [float(v) for v in cfg.gradient.perturbation_magnitudes],
             "bts": [int(v) for v in cfg.gradient.boundary_types],
-            "order": calls,
-            "pert": [[[float(v) for v in row] for row in mat] for mat in pert],
-            "res_x": [float(v) for v in g[0].evaluations.variables],
-            "rows": rows, "V": V}
+            "calls": out_calls, "V": V}
 
 
 def run_impl(case):
+    _norm(case)
     return _run_fun(case) if case["kind"] == "fun" else _run_eval(case)
 
 
@@ -279,26 +338,32 @@ def _arr3(a):
 
 
 def coq_case(case, obs):
+    _norm(case)
     if case["kind"] == "fun":
         comps = case["comps"]
         S = _mag([v for c in comps for v in c[1:]] + obs["got"])
         return ("(CFun (Build_fcase {} {} {} {} {} {} {}))".format(
             cq.b(case["exact"]), cq.q(S), cq.zs(c[0] for c in comps), cq.ers(c[1] for c in comps),
             cq.ers(c[2] for c in comps), cq.qs(c[3] for c in comps), cq.qs(obs["got"])))
-    flat = case["x"] + case["lbs"] + case["ubs"]
+    V = len(case["x"])
+    sc = case.get("scaler") or {"scales": [1.0] * V, "offsets": [0.0] * V}
+    flat = case["x"] + case["lbs"] + case["ubs"] + [v for c in case["calls"] for v in c["x"]]
     if not obs["rejected"]:
-        flat = flat + [v for m in obs["pert"] for r in m for v in r]
+        flat = flat + [v for c in obs["calls"] for m in c["pert"] for r in m for v in r] \
+                    + [v for c in obs["calls"] for r in c["rows"] for v in r]
     S = _mag(flat)
     gs = "None" if case["gs"] is None else f"(Some {cq.zs(case['gs'])})"
     mask = "None" if case["mask"] is None else f"(Some {cq.bs(case['mask'])})"
     scripts = cq.lst(_arr3(s) for s in case["scripts"])
     if obs["rejected"]:
-        o = "true [] [] [] []"
+        o = "true [] []"
     else:
-        o = "false {} {} {} {}".format(cq.qs(obs["mags"]), cq.zs(obs["order"]), _arr3(obs["pert"]),
-                                       cq.lst(cq.qs(r) for r in obs["rows"]))
-    return ("(CEval (Build_ecase {} {} {} {} {} {} {} {} {} {} {} {} {}))".format(
-        cq.b(case["exact"]), cq.q(S), cq.qs(case["x"]), cq.ers(case["lbs"]), cq.ers(case["ubs"]),
+        calls = cq.lst("(Build_ecall {} {} {} {} {} {})".format(
+            cq.qs(c["x"]), cq.z(c["mode"]), cq.zs(oc["order"]), cq.qs(oc["res_x"]), _arr3(oc["pert"]),
+            cq.lst(cq.qs(r) for r in oc["rows"])) for c, oc in zip(case["calls"], obs["calls"]))
+        o = "false {} {}".format(cq.qs(obs["mags"]), calls)
+    return ("(CEval (Build_ecase {} {} {} {} {} {} {} {} {} {} {} {} {} {}))".format(
+        cq.b(case["exact"]), cq.q(S), cq.ers(case["lbs"]), cq.ers(case["ubs"]), cq.qs(sc["scales"]), cq.qs(sc["offsets"]),
         cq.zs(case["bts"]), cq.zs(case["pts"]), cq.qs(case["ms"]), gs, mask, cq.nat(case["R"]), scripts, o))
 
 
@@ -344,7 +409,11 @@ def _bcast(a, n):
 
 
 def _expected_mags(case):
+    """user-domain magnitudes: the configured absolute value, or the configured fraction of the bound range;
+    None = must be rejected (RELATIVE on an infinite bound), "shape" = an array of a wrong size"""
     V = len(case["x"])
+    if any(len(a) not in (1, V) for a in (case["pts"], case["ms"], case["bts"])):
+        return "shape"
     pts, ms = _bcast(case["pts"], V), _bcast(case["ms"], V)
     out = []
     for p, m, lb, ub in zip(pts, ms, case["lbs"], case["ubs"]):
@@ -357,7 +426,8 @@ def _expected_mags(case):
     return out
 
 
-def oracle(case, obs):
+def oracle(case, obs):  # noqa: C901, PLR0911, PLR0912
+    _norm(case)
     if case["kind"] == "fun":
         if len(obs["got"]) != len(case["comps"]):
             return {"clause": "shape", "detail": len(obs["got"])}
@@ -369,20 +439,25 @@ def oracle(case, obs):
         return None
     exact = case["exact"]
     mags = _expected_mags(case)
-    if mags is None:
+    if mags is None or mags == "shape":
         if not obs["rejected"]:
-            return {"clause": "relative-needs-finite-bounds", "detail": "configuration with a RELATIVE variable on an infinite bound was accepted"}
+            return {"clause": "relative-needs-finite-bounds" if mags is None else "array-size",
+                    "detail": "a configuration that must be rejected was accepted"}
         return None
     if obs["rejected"]:
         return {"clause": "valid-configuration-rejected", "detail": obs.get("message")}
     V, R, P = len(case["x"]), case["R"], case["P"]
-    S = _mag(case["x"] + case["lbs"] + case["ubs"] + [v for m in obs["pert"] for r in m for v in r])
+    sc = case.get("scaler") or {"scales": [1.0] * V, "offsets": [0.0] * V}
+    scl, off = [_F(v) for v in sc["scales"]], [_F(v) for v in sc["offsets"]]
+    S = _mag(case["x"] + case["lbs"] + case["ubs"] + [v for c in obs["calls"] for m in c["pert"] for r in m for v in r]
+             + [v for c in obs["calls"] for r in c["rows"] for v in r])
     eq = (lambda a, b: _F(a) == b) if exact else (lambda a, b: _near(a, b, S))
-    if len(obs["mags"]) != V or any(not eq(a, b) for a, b in zip(obs["mags"], mags)):
-        return {"clause": "magnitude-absolute-or-fraction-of-range", "detail": {"got": obs["mags"], "want": [float(m) for m in mags]}}
-    pert = obs["pert"]
-    if len(pert) != R or any(len(m) != P for m in pert) or any(len(r) != V for m in pert for r in m):
-        return {"clause": "shape", "detail": "perturbed_variables is not (R, P, V)"}
+    # the stored magnitude, taken back to the user's units, is the configured one
+    if len(obs["mags"]) != V or any(not eq(a, b / s) for a, b, s in zip(obs["mags"], mags, scl)):
+        return {"clause": "magnitude-absolute-or-fraction-of-range",
+                "detail": {"got_optimizer_domain": obs["mags"], "want_user_domain": [float(m) for m in mags], "scales": sc["scales"]}}
+    if len(obs["calls"]) != len(case["calls"]):
+        return {"clause": "shape", "detail": "missing calls"}
     # the sample of variable v: the script of the sampler owning it (zero when none / masked out)
     bts = _bcast(case["bts"], V)
     owner = []
@@ -392,27 +467,51 @@ def oracle(case, obs):
             owner.append(0 if free else None)
         else:
             owner.append(case["gs"][v] if (free and case["gs"][v] >= 0) else None)
-    for r in range(R):
-        for p in range(P):
-            for v in range(V):
-                s = _F(case["scripts"][owner[v]][r][p][v]) if owner[v] is not None else Fr(0)
-                pre = _F(case["x"][v]) + mags[v] * s
-                viol = _component_clauses(bts[v], case["lbs"][v], case["ubs"][v], pre, pert[r][p][v], exact, S, [r, p, v])
-                if viol:
-                    return viol
-    want_rows = [case["x"]] * R + [row for m in pert for row in m]
-    if obs["rows"] != want_rows:
-        return {"clause": "evaluator-rows-are-the-reported-perturbed-variables", "detail": {"n_rows": len(obs["rows"]), "expected": len(want_rows)}}
+    cached = None
+    for k, (call, oc) in enumerate(zip(case["calls"], obs["calls"])):
+        x = call["x"]
+        pert = oc["pert"]
+        if len(pert) != R or any(len(m) != P for m in pert) or any(len(r) != V for m in pert for r in m):
+            return {"clause": "shape", "detail": "perturbed_variables is not (R, P, V)"}
+        # which function rows the evaluator must have seen (functions requested, or no usable cached values)
+        if call["mode"] == 0:
+            nfun, cached = R, None
+        elif call["mode"] == 1:
+            nfun, cached = R, list(x)
+        else:
+            nfun = 0 if cached == list(x) else R
+            cached = cached if nfun == 0 else None
+        rows = oc["rows"]
+        if len(rows) != nfun + R * P or rows[:nfun] != [x] * nfun:
+            return {"clause": "evaluator-rows", "detail": {"call": k, "n_rows": len(rows), "expected": nfun + R * P}}
+        prow = rows[nfun:]
+        # the evaluator sees the user domain: x + magnitude * sample, boundary-processed with the user's bounds
+        for r in range(R):
+            for p in range(P):
+                urow = prow[r * P + p]
+                for v in range(V):
+                    s = _F(case["scripts"][owner[v]][r][p][v]) if owner[v] is not None else Fr(0)
+                    pre = _F(x[v]) + mags[v] * s
+                    viol = _component_clauses(bts[v], case["lbs"][v], case["ubs"][v], pre, urow[v], exact, S, [k, r, p, v])
+                    if viol:
+                        return viol
+                    # the reported (optimizer-domain) perturbed variable is the same point
+                    if not eq(pert[r][p][v], (_F(urow[v]) - off[v]) / scl[v]):
+                        return {"clause": "evaluator-rows-are-the-reported-perturbed-variables",
+                                "detail": {"call": k, "at": [r, p, v], "reported": pert[r][p][v], "row": urow[v]}}
+        if any(not eq(a, (_F(b) - o) / sv) for a, b, o, sv in zip(oc["res_x"], x, off, scl)):
+            return {"clause": "gradient-result-at-the-requested-point", "detail": {"call": k, "got": oc["res_x"], "x": x}}
     return None
 
 
 # ---------------------------------------------------------------------------------------------------
 def nontrivial(case, obs):
+    _norm(case)
     if case["kind"] == "fun":
         return any(not (lb <= y <= ub) for _, lb, ub, y in case["comps"])
     if obs["rejected"]:
         return True
-    return any(row != case["x"] for m in obs["pert"] for row in m)
+    return any(row != c["x"] for c, oc in zip(case["calls"], obs["calls"]) for row in oc["rows"])
 
 
 def _overshoot(lb, ub, y):
@@ -424,6 +523,7 @@ def _overshoot(lb, ub, y):
 
 
 def features(case, obs):
+    _norm(case)
     if case["kind"] == "fun":
         f = {"kind": "fun" if case["exact"] else "fun-fullprec"}
         c = case["comps"][0]
@@ -433,7 +533,12 @@ def features(case, obs):
         return f
     return {"kind": "eval" if case["exact"] else "eval-fullprec", "V": len(case["x"]), "R": case["R"], "P": case["P"],
             "samplers": len(case["scripts"]), "gs": case["gs"] is not None, "mask": case["mask"] is not None,
-            "relative": RELATIVE in case["pts"], "rejected": obs["rejected"], "split": case["split"],
+            "relative": RELATIVE in case["pts"], "rejected": obs["rejected"],
+            "modes": "".join(str(c["mode"]) for c in case["calls"]), "scaler": case.get("scaler") is not None,
+            "revalidate": bool(case.get("revalidate")), "x_is_initial": case["calls"][0]["x"] == case["x"],
+            "nonpositive_magnitude": any(m <= 0 for m in case["ms"]),
+            "mixed_none": NONE in case["bts"] and len(set(case["bts"])) > 1,
+            "half_open": any(math.isfinite(a) != math.isfinite(b) for a, b in zip(case["lbs"], case["ubs"])),
             "bts_scalar": len(case["bts"]) == 1}
 
 
@@ -442,6 +547,7 @@ def known_signature(case, obs, violation):
 
 
 def shrink(case):
+    _norm(case)
     if case["kind"] == "fun":
         comps = case["comps"]
         if len(comps) > 1:
@@ -449,6 +555,13 @@ def shrink(case):
                 yield {**case, "comps": [comps[k]]}
         return
     R, P = case["R"], case["P"]
+    if len(case["calls"]) > 1:
+        for k in range(len(case["calls"])):
+            yield {**case, "calls": case["calls"][:k] + case["calls"][k + 1:]}
+    if case.get("scaler") is not None:
+        yield {**case, "scaler": None}
+    if case.get("revalidate"):
+        yield {**case, "revalidate": False}
     if R > 1:
         yield {**case, "R": 1, "weights": case["weights"][:1], "scripts": [s[:1] for s in case["scripts"]]}
     if P > 1:
@@ -466,9 +579,10 @@ def shrink(case):
                  "bts": sub(case["bts"]) if len(case["bts"]) == V else case["bts"],
                  "pts": sub(case["pts"]) if len(case["pts"]) == V else case["pts"],
                  "ms": sub(case["ms"]) if len(case["ms"]) == V else case["ms"],
-                 "scripts": [[[sub(row) for row in m] for m in s] for s in case["scripts"]]}
-            if V == 2:      # a size-1 array would be read as "broadcast"; still well formed
-                pass
+                 "scripts": [[[sub(row) for row in m] for m in s] for s in case["scripts"]],
+                 "calls": [{**cl, "x": sub(cl["x"])} for cl in case["calls"]],
+                 "scaler": None if case.get("scaler") is None else {"scales": sub(case["scaler"]["scales"]),
+                                                                    "offsets": sub(case["scaler"]["offsets"])}}
             yield c
 
 
